@@ -73,6 +73,31 @@ CHECKS["C20"] = (
     "DESIGN.md section 4, C20",
 )
 
+CHECKS["C05"] = (
+    "property-based testing with defining-residual oracles: isofugacity, common T and p, material balance, specified composition, non-copies, p_bubble >= p_dew recomputed from fresh states at the returned (T,V,N); seed-independent success lattice over hydrocarbon pairs of gross2001; generated options, initial guesses, diagrams, heteroazeotropes / LLE",
+    "Lattice: 243 (quick) / all 974 (thorough) admissible hydrocarbon pairs x 6 temperatures x 7 compositions: bubble and dew points must be found, flashes at theta in {0.1,0.5,0.9} of the envelope must be found when p_bub/p_dew > 1.05. Sampled: 6 000 bubble / dew / flash problems on binary and ternary PC-SAFT, gc-PC-SAFT and SAFT-VR Mie mixtures with solver options and initial guesses, 400 diagrams (binary_vle at T and p, bubble / dew lines), 1 000 water + alcohol / hydrocarbon heteroazeotrope, VLLE and LLE problems.",
+    "Fugacity equality is tested on ln(x phi p) and pressure equality separately (ln phi of a liquid at vanishing pressure carries the pressure roundoff). p_bubble >= p_dew only where both results are stable vapour-liquid pairs. Tolerances: |d ln f| 1e-6, pressures 1e-7 rel + absolute term, balances 1e-12. Open known findings masked by signature: rachford_rice failures for 5 % C16-C20 alkane in C5-C7 ring/aromatic solvents at theta = 0.5, zero-pressure gas pairs (SAFT-VR Mie), heteroazeotrope with identical phases, near-trivial two-phase results, result beyond max_density.",
+    "DESIGN.md section 4, C05",
+)
+CHECKS["C06"] = (
+    "property-based testing with defining-condition oracles recomputed from fresh states: pure critical conditions, smallest eigenvalue of the scaled composition Hessian (own Jacobi solver) and cubic form along its eigenvector (Ridders), spinodal conditions and bracketing; exhaustive lattice over the shipped pure records; random Peng-Robinson triples against their (Tc, pc)",
+    "Anchors (8 systems that must solve), exhaustive pure lattice (2191 records: default critical point, initial temperatures 0.5 and 1.6 Tc, spinodals at 0.5/0.7/0.9/0.99 Tc), 2 000 random Peng-Robinson triples, 4 000 mixture cases (critical points with / without initial temperature, State::spinodal, PhaseDiagram::spinodal), 2 000 critical_point_binary cases at given T or p.",
+    "Mixture cubic condition tolerance 1e-3 (+50x Ridders error): the library's convergence test does not see the cubic component (observation). 'Same point from different initial temperatures' asserted for Peng-Robinson below the alpha kink only; spinodal clauses only when the critical point is confirmed as the vapour-liquid one. Open known findings masked by signature: liquid spinodal returned on the vapour branch, SAFT-VR Mie critical points at negative pressure, second Peng-Robinson critical point for kappa > 1.",
+    "DESIGN.md section 4, C06",
+)
+CHECKS["C07"] = (
+    "property-based testing: tangent-plane distance of every trial state recomputed independently from ln phi of fresh states (soundness, strict < 0); completeness on both sides of the phase envelope (lattice + generated margins) and across the pure binodal; flash on unstable feeds must split",
+    "Lattice (every 8th hydrocarbon pair of C05 x temperatures x compositions x inside / outside pressures), 8 000 generated mixture feeds with solver options, 8 000 pure states on density grids across the binodal.",
+    "Pure states inside the binodal at p <= 0 have no fugacity coefficient (stability_analysis returns Err): counted inconclusive. Sampled mixtures with k_ij can have liquid-liquid splits: 'expected stable' is a violation only on the lattice (k_ij = 0) and for PC-SAFT pure fluids. Open known finding: the acceptance threshold -1e-8 lies below the noise of the reported tpd (recomputed tpd up to +1e-7, low-pressure equilibrium phases reported unstable).",
+    "DESIGN.md section 4, C07",
+)
+CHECKS["C13"] = (
+    "property-based testing with a limit oracle: B and C against Neville-extrapolated low-density limits of (Z-1)/rho and its divided differences with error estimates, per contribution; dB/dT, dC/dT against Ridders derivatives of the coefficient; amount independence; quadratic composition form where the model implies it",
+    "Exhaustive lattice over every shipped pure PC-SAFT / SAFT-VR Mie / SAFT-VRQ Mie record at two reduced temperatures (4 382 cases) plus 5 000 generated cases over all 13 families, 1-3 components, tau in [0.5,3].",
+    "Electrolytes excluded by the property. The quadratic form B_mix(x) is asserted only for Peng-Robinson, PeTS and FMT (one-fluid SAFT models do not imply it). Tolerances: B 1e-5, C 1e-3, T-derivatives 1e-6 or 50x Ridders error. Open known findings masked per contribution: cross-association returns 0 at rho = 0, SAFT-VR Mie chain term for m != 1, SAFT-VRQ Mie mixtures NaN, uv-theory BH NaN, polar terms lack the three-body part of C, functionals as bulk models at rho = 0.",
+    "DESIGN.md section 4, C13",
+)
+
 NOT_YET = {}
 
 def main():
